@@ -152,3 +152,28 @@ def return_sources(fi):
 
 def is_none_expr(e):
     return e is None or (isinstance(e, ast.Constant) and e.value is None)
+
+
+def guards_of(g, node, dom=None):
+    """[(test expression, polarity)] of the branches dominating `node`; a branch on a flag local that has a single definition
+    `flag = <test>` / `flag = bool(<test>)` is reported with that test (the normaliser introduces such flags)"""
+    from .flow import dominators
+    dom = dom or dominators(g)
+    rd = prov.rd_of(g)
+    out = []
+    for d in dom[node.id]:
+        b = g.nodes[d]
+        if b.kind != "branch":
+            continue
+        t = b.test
+        if isinstance(t, ast.Name):
+            ds = rd.get(b.id, {}).get(t.id, frozenset())
+            dn = [g.nodes[i] for i in ds]
+            if len(dn) == 1 and dn[0].kind == "stmt" and isinstance(dn[0].ast, ast.Assign):
+                v = dn[0].ast.value
+                if isinstance(v, ast.Call) and isinstance(v.func, ast.Name) and v.func.id == "bool" and len(v.args) == 1:
+                    v = v.args[0]
+                if isinstance(v, (ast.Compare, ast.BoolOp, ast.UnaryOp, ast.Call)):
+                    t = v
+        out.append((t, b.polarity))
+    return out
